@@ -1,5 +1,6 @@
 import Tbx.Drv.Common
 import Tbx.Model.Bound
+import Tbx.Model.FlowDinic
 /-
 Driver for C04 (shared upper bound under all interleavings).
 
@@ -22,7 +23,7 @@ def stS : Status → String
 def lastD (l : List Int) : Int := l.getLast?.getD 0
 
 /-- run the model on a schedule (SC loads: the observed value is the current bound), then complete -/
-def simulate (N : Nat) (P : Fin N → Proc) (B0 : Int) (sched : List Nat) : Array String × St N := Id.run do
+def simulate (N : Nat) (P : Fin N → Proc) (B0 : Int) (sched : List Nat) (assignOf : Nat → String) : Array String × St N := Id.run do
   let mut s : St N := init B0
   let mut out : Array String := #[]
   let mut k := 0
@@ -56,9 +57,47 @@ def simulate (N : Nat) (P : Fin N → Proc) (B0 : Int) (sched : List Nat) : Arra
     let v := match s.st i with
       | .finished => toString (P i).F
       | _ => "ERR"
-    out := out.push s!"D out i={i.val} st={stS (s.st i)} value={v}"
+    let a := match s.st i with
+      | .finished => assignOf i.val
+      | _ => "-"
+    out := out.push s!"D out i={i.val} st={stS (s.st i)} value={v} assign={a}"
   out := out.push s!"D final bound={s.bound}"
   return (out, s)
+
+/-- accumulated flow after each phase of the Dinic MODEL (C01: `Tbx.Flow.Dinic`, proved to return the maximum
+    flow) on solver i's graph, plus the model's canonical source-side assignment of the finished run -/
+def modelPhases (es : List Flow.Edge) (s t : Nat) : Option (List Int × List Bool) :=
+  match Flow.Dinic.fromEdgeList es s t with
+  | none => none
+  | some d =>
+    let n := d.g.numNodes
+    if d.source ≥ n ∨ d.target ≥ n then none
+    else
+      let d0 := { d with parents := Array.replicate n 0, level := Array.replicate n Flow.INV }
+      let cap := es.foldl (fun a e => a + e.cap.toNat) 2
+      let rec loop (fuel : Nat) (d : Flow.Dinic) (flow : Int) (acc : List Int) : Option (Flow.Dinic × Int × List Int) :=
+        match fuel with
+        | 0 => none
+        | fuel + 1 =>
+          match d.bfs with
+          | none => none
+          | some (d1, false) => some (d1, flow, acc.reverse)
+          | some (d1, true) =>
+            match d1.dfs with
+            | none => none
+            | some (d2, bf) => loop fuel d2 (flow + bf) ((flow + bf) :: acc)
+      match loop cap d0 0 [] with
+      | none => none
+      | some (d', flow, ph) =>
+        let fin : Flow.Dinic := { d' with maxFlow := flow, finished := true }
+        match fin.assignment? s with
+        | .ok bits => some (ph, bits.toList)
+        | _ => none
+
+def parseEdge (t : String) : Option Flow.Edge :=
+  match t.splitOn ":" with
+  | [a, b, c] => some ⟨parseNat! a, parseNat! b, parseInt! c⟩
+  | _ => none
 
 def field (line key : String) : Option String :=
   (words line).findSome? fun w => if w.startsWith (key ++ "=") then some (w.drop (key.length + 1)).toString else none
@@ -68,6 +107,7 @@ def handle (c : Case) : CaseOut := Id.run do
   let mut B0 : Int := 0
   let mut procs : Array Proc := #[]
   let mut sched : List Nat := []
+  let mut graphs : Array (Nat × Nat × Nat × List Flow.Edge) := #[]
   for l in c.ops do
     match words l with
     | ["N", n] => N := parseNat! n; procs := Array.replicate N ⟨[], 0⟩
@@ -76,14 +116,22 @@ def handle (c : Case) : CaseOut := Id.run do
       let ph := fs.map parseInt!
       procs := procs.setIfInBounds (parseNat! i) ⟨ph, lastD ph⟩
     | "S" :: is => sched := is.map parseNat!
-    | "G" :: _ => pure ()
+    | "G" :: i :: a :: b :: es =>
+      graphs := graphs.push (parseNat! i, parseNat! a, parseNat! b, es.filterMap parseEdge)
     | _ => return { model := #[], verdict := .skip s!"unparsable op '{l}'" }
   if N == 0 || procs.size != N then return { model := #[], verdict := .skip "no solvers" }
   let P : Fin N → Proc := fun i => procs.getD i.val ⟨[], 0⟩
   -- well-formedness of the process descriptions (what C01 guarantees): flows nondecreasing, ≥ 0
   let wf := procs.all fun p => p.phases.all (fun x => decide (x ≤ p.F)) && p.phases.all (fun x => decide (0 ≤ x))
   if !wf then return { model := #[], verdict := .skip "phase flows not bounded by the final flow" }
-  let (out, _) := simulate N P B0 sched
+  let assignTab : Array String := Id.run do
+    let mut t : Array String := Array.replicate N "-"
+    for (i, src, tgt, es) in graphs do
+      match modelPhases es src tgt with
+      | some (_, bits) => t := t.setIfInBounds i (String.join (bits.map fun b => if b then "1" else "0"))
+      | none => pure ()
+    return t
+  let (out, _) := simulate N P B0 sched (fun i => assignTab.getD i "-")
   -- judge: the clauses of C04 on the implementation's outcome, from the I lines alone
   let outs := c.impl.filter (·.startsWith "D out ")
   let fin := (c.impl.filter (·.startsWith "D final ")).getD 0 ""
@@ -111,6 +159,25 @@ def handle (c : Case) : CaseOut := Id.run do
       if b != finishedMin then
         verdict := .fail s!"final bound {b} ≠ min(initial bound, completed flows) = {finishedMin}"
     | none => verdict := .fail "no final bound"
+    -- the abstraction itself: the phase flows recorded from the real unbounded run (P lines) are those of the
+    -- Dinic MODEL on the same graph (C01 proves that model returns the maximum flow), and a finished bounded
+    -- run's assignment is the model's canonical minimum cut (C02)
+    for (i, src, tgt, es) in graphs do
+      if verdict matches .ok then
+        match modelPhases es src tgt with
+        | none => verdict := .fail s!"solver {i}: the Dinic model does not return on this graph (model-out-of-fuel)"
+        | some (ph, bits) =>
+          let recorded := (procs.getD i ⟨[], 0⟩).phases
+          if ph != recorded then
+            verdict := .fail s!"solver {i}: phase flows of the real unbounded run {recorded} differ from the Dinic model's {ph}"
+          else
+            let want := String.join (bits.map fun b => if b then "1" else "0")
+            for l in c.impl do
+              if l.startsWith s!"D out i={i} " then
+                match field l "assign" with
+                | some a => if a != "-" && a != want then
+                    verdict := .fail s!"solver {i} completed but its assignment {a} is not the canonical minimum cut {want}"
+                | none => pure ()
     -- the bounded runs executed the phases of the unbounded runs
     for l in c.impl do
       if (verdict matches .ok) && l.startsWith "D " && (field l "kind") == some "load" then
